@@ -101,7 +101,7 @@ pub fn gen_plan(rng: &mut Rng) -> Plan {
     Plan {
         intent: *rng.pick(&[1, 2, 2, 3, 3]),
         proto: *rng.pick(&[0, 767, 47, -1]),
-        host: rng.pick(&["", "mc.example.org", "localhost", "ünï.example"]).to_string(),
+        host: rng.pick(&["", "mc.example.org", "localhost", "ünï.example", "play.example.org\u{0}FML\u{0}", "Mc.Example.ORG."]).to_string(),
         port: *rng.pick(&[0, 25565, 65535]),
         claimed_name,
         claimed_uuid: 0x0987_9557_e479_45a9_b434_a563_7767_4627 + u128::from(rng.below(3)),
